@@ -45,7 +45,7 @@ def job_broadcast(job):
     pats = set()
 
     def fail(rec):
-        if len(out['failures']) < 15:
+        if len(out['failures']) < 400:
             out['failures'].append(rec)
     for cfg in job['configs']:
         try:
@@ -344,13 +344,13 @@ def job_register(job):
                     must_equal = not any(t in expr for t in cfg.get('may_raise_tokens', []))
                     rec = {'config': cfg, 'expr': expr, 'mode': mode, 'what': 'registered function raises where f returns',
                            'error': got[1], 'args': [showmv(a.keys(), a.values()) for a in args]}
-                    if must_equal and len(out['failures']) < 12:
+                    if must_equal and len(out['failures']) < 400:
                         out['failures'].append(rec)
                     continue
                 gv = got[1]
                 if not isinstance(gv, MultiVector):
                     gv = MultiVector.fromkeysvalues(alg, (0,), [gv])
-                if not _mv_close(gv, dv) and len(out['failures']) < 12:
+                if not _mv_close(gv, dv) and len(out['failures']) < 400:
                     out['failures'].append({'config': cfg, 'expr': expr, 'mode': mode, 'what': 'registered function returns a different multivector',
                                             'args': [showmv(a.keys(), a.values()) for a in args],
                                             'got': str(todict(gv))[:300], 'expected': str(todict(dv))[:300]})
